@@ -57,19 +57,13 @@ class GaussianRandomField(Autocorrelation):
         acf_psi = (np.exp(-r/self.corr_length) * (1 + r / self.corr_length)
                    * np.sinc(2*r/self.repeat_distance))
 
-        # integral discretization. henning says: the resolution 1e-2 is ad hoc, test required,
-        # the integrand has a (integrable) singularity for t=1 and acf_psi = 1, so an adaptive
-        # discretization seems preferable -> TODO
-        dt = 1e-2
-        t = np.arange(0, 1, dt)
+        # integral discretization. The integrand has a (integrable) singularity for t=1 and acf_psi = 1,
+        # which is removed by the change of variable t * acf_psi = sin(theta)
+        theta_max = np.arcsin(np.clip(acf_psi, -1, 1))
+        x = np.linspace(0, 1, 101)
+        theta = np.outer(theta_max, x)
 
-        # the gridded integrand, via change of integration variable
-        # compared to the wp-2 docu, to enable array-based computation
-        t_gridded, acf_psi_gridded = np.meshgrid(t, acf_psi)
-        integrand_gridded = (acf_psi_gridded / np.sqrt(1 - (t_gridded * acf_psi_gridded)**2)
-                             * np.exp(- beta**2 / (1 + t_gridded * acf_psi_gridded)))
-
-        acf = 1.0 / (2 * np.pi) * np.trapz(integrand_gridded, x=t_gridded)
+        acf = 1.0 / (2 * np.pi) * np.trapz(np.exp(- beta**2 / (1 + np.sin(theta))), x=theta)
 
         return acf
 
